@@ -25,6 +25,9 @@ def run_case(case, acc, order):
             if s < n_raw and (c + off) % case['thin'] == 0:
                 samples.append(s)
     samples = sorted(set(samples))
+    if case.get('late'):
+        # two spikes at and after the end of the recording: they lie in no chunk and are never eligible
+        samples += [n_raw, n_raw + 3]
     ns = len(samples)
     nt = 3
     st = [(i * 7 + i // 3) % nt for i in range(ns)]
@@ -138,7 +141,7 @@ def explore(ctx):
                 for tdt in ('uint64', 'int64'):
                     cases.append({'chunk': chunk, 'n_chunks': n_chunks, 'short_last': short_last,
                                   'thin': 1 if n_chunks <= 26 else 2, 'time_dtype': tdt,
-                                  'fill': ctx.seed})
+                                  'fill': ctx.seed, 'late': (chunk == 8) == (tdt == 'uint64')})
     for n_chunks in (21, 41):
         for thin in (1, 2):
             cases.append({'chunk': 21, 'n_chunks': n_chunks, 'short_last': 0, 'thin': thin,
